@@ -5,7 +5,7 @@
 From Coq Require Import List ZArith QArith.
 Import ListNotations.
 From Eudoxia Require Import Model.Types Model.Lifecycle Model.Container Model.Pool Model.Executor Model.Sched
-  Proofs.ExecLifeFacts Proofs.PriorityFacts.
+  Proofs.ExecLifeFacts Proofs.PriorityFacts Proofs.PreemptFuelFacts.
 Close Scope Q_scope.
 Close Scope Z_scope.
 
@@ -326,3 +326,76 @@ Example C12_multi_run_witness :
     ([], [], [(2, false); (3, false)]);
     ([], [], []); ([], [], []); ([], [], []); ([], [], [])], None, 1%Z, [0]).
 Proof. exact MultiExamples.ex_preempt_two_ticks. Qed.
+
+(* ------------------------------------------------------------------------------------------ *)
+(* Fuel of the preemption loop (closes audit B, point P8). The model's [pr_preempt] runs on fuel and returns
+   its partial list when the fuel ends; C12_suspend_rules is a safety statement and holds for any fuel, so by
+   itself it would not notice a model that suspends too few containers. [pr_preempt_stops] repeats the
+   recursion of [pr_preempt] and only reports how the loop ends: true = through one of its own exit tests
+   (enough victims, or every pool's iterator exhausted), false = the fuel ran out. With the fuel used by
+   [priority_step], (n+1) * (n+1+L) for n pools holding L active containers in all, the fuel never runs out:
+   for ANY pools and ANY number of waiting query jobs, without any run invariant. *)
+Theorem C12_preempt_fuel_suffices : forall (ps : list pool) (need : nat),
+  let iters := map (fun p => (p_id p, p_active p, false)) ps in
+  let fuel := (S (length iters)) * (S (length iters) + length (flat_map p_active ps)) in
+  pr_preempt_stops fuel need iters 0 [] = true.
+Proof. exact preempt_fuel_suffices. Qed.
+Print Assumptions C12_preempt_fuel_suffices.
+
+(* hence any larger fuel gives the same suspensions: the answer is the loop's own, not the fuel's *)
+Theorem C12_preempt_more_fuel_same : forall (ps : list pool) (need : nat),
+  let iters := map (fun p => (p_id p, p_active p, false)) ps in
+  let fuel := (S (length iters)) * (S (length iters) + length (flat_map p_active ps)) in
+  forall k, pr_preempt (fuel + k) need iters 0 [] = pr_preempt fuel need iters 0 [].
+Proof. exact preempt_more_fuel_same. Qed.
+Print Assumptions C12_preempt_more_fuel_same.
+
+(* the same for a round of [priority_step]: the loop it runs leaves through an exit test, and the suspensions
+   the round returns are those computed with any larger fuel *)
+Theorem C12_step_preempt_fuel : forall C s e results newp s' w' susps asgs,
+  priority_step C s e results newp = Ok (s', w', susps, asgs) ->
+  let iters := map (fun p => (p_id p, p_active p, false)) (e_pools e) in
+  let fuel := (S (length iters)) * (S (length iters) + length (flat_map p_active (e_pools e))) in
+  pr_preempt_stops fuel (length (ss_q s')) iters 0 [] = true /\
+  forall k,
+    susps = match ss_q s' with
+            | [] => []
+            | _ => pr_preempt (fuel + k) (length (ss_q s')) iters 0 []
+            end.
+Proof. exact priority_step_preempt_fuel. Qed.
+Print Assumptions C12_step_preempt_fuel.
+
+(* non-vacuity: two pools (pool 0: query container 10, batch 11 not at an operator boundary, interactive 12;
+   pool 1: query 20, batch 21 and 22), fuel 3 * 9 = 27. Two waiting query jobs: the loop leaves through the
+   [need] test with victims 21 and 12 *)
+Example C12_preempt_stops_by_need :
+  FuelExamples.fuel = 27 /\
+  pr_preempt_stops FuelExamples.fuel 2 FuelExamples.iters 0 [] = true /\
+  map (fun x => (su_cid x, su_pool x)) (pr_preempt FuelExamples.fuel 2 FuelExamples.iters 0 []) =
+    [(21, 1%Z); (12, 0%Z)] /\
+  pr_preempt (FuelExamples.fuel + 100) 2 FuelExamples.iters 0 [] =
+    pr_preempt FuelExamples.fuel 2 FuelExamples.iters 0 [].
+Proof. exact FuelExamples.stops_by_need. Qed.
+
+(* five waiting query jobs but only three containers can be suspended: the loop leaves because every iterator
+   is exhausted *)
+Example C12_preempt_stops_by_exhaustion :
+  pr_preempt_stops FuelExamples.fuel 5 FuelExamples.iters 0 [] = true /\
+  map (fun x => (su_cid x, su_pool x)) (pr_preempt FuelExamples.fuel 5 FuelExamples.iters 0 []) =
+    [(21, 1%Z); (12, 0%Z); (22, 1%Z)] /\
+  pr_preempt (FuelExamples.fuel + 100) 5 FuelExamples.iters 0 [] =
+    pr_preempt FuelExamples.fuel 5 FuelExamples.iters 0 [].
+Proof. exact FuelExamples.stops_by_exhaustion. Qed.
+
+(* [pr_preempt_stops] is not trivially true: on the same input a too small fuel is reported as such, and the
+   answer is then a strict prefix of the right one *)
+Example C12_preempt_small_fuel_does_not_stop :
+  pr_preempt_stops 1 2 FuelExamples.iters 0 [] = false /\
+  pr_preempt_stops 2 2 FuelExamples.iters 0 [] = false /\
+  pr_preempt_stops 3 2 FuelExamples.iters 0 [] = false /\
+  pr_preempt_stops 4 2 FuelExamples.iters 0 [] = true /\
+  map su_cid (pr_preempt 2 2 FuelExamples.iters 0 []) = [21] /\
+  pr_preempt_stops 6 5 FuelExamples.iters 0 [] = false /\
+  pr_preempt_stops 7 5 FuelExamples.iters 0 [] = true /\
+  map su_cid (pr_preempt 3 5 FuelExamples.iters 0 []) = [21; 12].
+Proof. exact FuelExamples.small_fuel_does_not_stop. Qed.
